@@ -37,10 +37,15 @@ class Shape:
     def uses_gc(self):
         return any(not FT[c][2] for (_, _, fs) in self.variants for (c, rs) in fs if c in FT)
 
-    def expected_needs_trace(self):
+    def expected_needs_trace(self, nt=None):
+        """Disjunction of the traced field types' own NEEDS_TRACE constants. `nt` maps a field-type code to the
+        value the compiler evaluated for that type on the current tree (field_constants); the property is about
+        the derive being exact *relative to its field types*, so a wrong constant of a provided impl (C16's
+        business) must not be reported against the derive."""
         if self.mode == "require_static":
             return False
-        return any(FT[c][1] for (_, _, fs) in self.variants for (c, rs) in fs if c in FT and not rs)
+        nt = nt or {}
+        return any(nt.get(c, FT[c][1]) for (_, _, fs) in self.variants for (c, rs) in fs if c in FT and not rs)
 
     def expected_traced(self):
         """variant index -> set of field indices that must be traced"""
@@ -169,12 +174,22 @@ pub struct Plain { x: u64 }
 '''
 
 
+def field_constants(prog):
+    """code -> NEEDS_TRACE of that field type as const-evaluated by the compiler for the current tree."""
+    out = {}
+    for c in FT:
+        ci = prog.consts.get("NT_%s" % c)
+        if ci and "value" in ci:
+            out[c] = bool(ci["value"])
+    return out
+
+
 def build(tier="quick", repo=None):
     """Generate + type-check the corpus for the current tree; returns (facts dict, shapes)."""
     repo = repo or facts.REPO
     facts.ensure_driver()
     th = facts.tree_hash(repo)
-    d = os.path.join(facts.CACHE, th, "corpus-" + tier)
+    d = os.path.join(facts.CACHE, th, "corpus2-" + tier)
     os.makedirs(d, exist_ok=True)
     shp = shapes(tier)
     fact = os.path.join(d, "out", "corpus.json")
@@ -193,6 +208,9 @@ def build(tier="quick", repo=None):
                 shutil.copy(lockf, os.path.join(crate, "Cargo.lock"))
             with open(os.path.join(crate, "src", "lib.rs"), "w") as f:
                 f.write(PRELUDE)
+                for c, (ty, _, _) in FT.items():
+                    f.write("pub const NT_%s: bool = <%s as Collect<'static>>::NEEDS_TRACE;\n" % (c, ty.replace("'gc", "'static")))
+                f.write("\n")
                 for s in shp:
                     f.write(s.render() + "\n\n")
             env = facts.base_env()
